@@ -328,7 +328,8 @@ fn gen_cell(src: &mut Src, st: &MStack, name: &str, lower: &[MCellT], max_size: 
     // cuts and assignments
     let mut used: Vec<(usize, usize, i64, i64)> = vec![]; // (layer, track, lo, hi) spans taken on a track
     let mut track_net: BTreeMap<(usize, usize), String> = BTreeMap::new();
-    let nets = ["a", "b", "clk", "n1"];
+    // (a name may begin or end with a blank: it is a different name from the one without)
+    let nets = ["a", "b", "clk", "n1", "clk ", " a", "N1"];
     for _ in 0..src.usize_in(0, 6) {
         let is_assign = src.bool();
         let l = src.index(metals);
@@ -516,7 +517,17 @@ pub fn build(m: &MLibT) -> Result<BuiltT, String> {
             ptrs.push(lib.cells.add(Cell::from(tet::abs::Abstract::new(c.name.clone(), c.metals, outline))));
             continue;
         }
-        let mut l = Layout::new(c.name.clone(), c.metals, Outline::rect(c.size.0 as isize, c.size.1 as isize).map_err(|e| format!("{:?}", e))?);
+        // one cell in eleven (by content) has its rectangle written in two steps of equal width, x = [w, w],
+        // y = [h1, h]: the same rectangle; the compiler may refuse the spelling, or compile the whole rectangle
+        let two_step = c.size.1 >= 2 && (c.size.0 * 3 + c.size.1 + c.cuts.len() as i64 + c.assigns.len() as i64) % 11 == 5;
+        let outline = if two_step {
+            use tet::coords::PrimPitches as PP;
+            let h1 = 1 + (c.size.0 + c.insts.len() as i64) % (c.size.1 - 1);
+            Outline { x: vec![PP::x(c.size.0 as isize), PP::x(c.size.0 as isize)], y: vec![PP::y(h1 as isize), PP::y(c.size.1 as isize)] }
+        } else {
+            Outline::rect(c.size.0 as isize, c.size.1 as isize).map_err(|e| format!("{:?}", e))?
+        };
+        let mut l = Layout::new(c.name.clone(), c.metals, outline);
         for (k, i) in c.insts.iter().enumerate() {
             l.instances.add(Instance { inst_name: format!("i{}", k), cell: ptrs[i.target].clone(), loc: Place::Abs((i.loc.0 as isize, i.loc.1 as isize).into()), reflect_horiz: i.rh, reflect_vert: i.rv });
         }
